@@ -22,5 +22,5 @@ CONSTANTS
   CRoot = 3
   DropLockBug = FALSE
   CachedLevelBug = TRUE
-INVARIANTS CTypeOK MutualExclusion RefinesWhenFree LPWWhenFree LockedReturnsAtomic LockFreeReadOK NoDeadlock
+INVARIANTS LockFreeReadOK
 CHECK_DEADLOCK FALSE
